@@ -5190,6 +5190,227 @@ def r_reorder_real(P, R):
 r_reorder_real.NAME = 'R-REORDER(real reordering model)'
 
 
+class _ZddModel:
+    """The part of CUDD that the hand-written ZDD recursions of
+    dd/cudd_zdd.pyx use, as a specification: nodes (index, then, else)
+    in a unique table, 0 and 1 the constants, a node whose `then` is 0
+    never made by `mk` (zero suppression; `cuddUniqueInterZdd` itself
+    makes what it is asked for), levels from a permutation of the
+    indices."""
+    CONST = 2 ** 31 - 1
+
+    def __init__(self, perm):
+        self.perm = list(perm)          # perm[index] = level
+        self.n = len(perm)
+        self.inv = {l: i for i, l in enumerate(perm)}
+        self.nodes = dict()
+        self.unique = dict()
+        self.next = 2
+
+    def mk_raw(self, index, t, e):
+        k = (index, t, e)
+        if k not in self.unique:
+            self.unique[k] = self.next
+            self.nodes[self.next] = k
+            self.next += 1
+        return self.unique[k]
+
+    def mk(self, index, t, e):
+        return e if t == 0 else self.mk_raw(index, t, e)
+
+    def level(self, u):
+        return self.CONST if u in (0, 1) else self.perm[self.nodes[u][0]]
+
+    def member(self, u, a):
+        """Does the family of `u` hold the set of the variables that are
+        true in `a` (index -> bool)?"""
+        l = 0
+        while True:
+            if u == 0:
+                return False
+            lu = self.n if u == 1 else self.level(u)
+            if any(a[self.inv[k]] for k in range(l, lu)):
+                return False
+            if u == 1:
+                return True
+            i, t, e = self.nodes[u]
+            u = t if a[i] else e
+            l = lu + 1
+
+    def build(self, tt, rows):
+        def rec(l, a):
+            if l == self.n:
+                return 1 if tt[rows.index(tuple(
+                    a[i] for i in range(self.n)))] else 0
+            i = self.inv[l]
+            a[i] = True
+            t = rec(l + 1, a)
+            a[i] = False
+            e = rec(l + 1, a)
+            del a[i]
+            return self.mk(i, t, e)
+        return rec(0, dict())
+
+    def cube(self, idxs):
+        r = 1
+        for i in sorted(idxs, key=lambda i: -self.perm[i]):
+            r = self.mk_raw(i, r, r)
+        return r
+
+    def universe(self, i):
+        r = 1
+        for l in range(self.n - 1, i - 1, -1):
+            r = self.mk_raw(self.inv[l], r, r)
+        return r
+
+    def stubs(self):
+        z = self
+        c = self.CONST
+
+        def on(fn):
+            return lambda m, call, a, k: fn(*a)
+        return {
+            'DD_ZERO': on(lambda mgr: 0), 'DD_ONE': on(lambda mgr: 1),
+            'Cudd_ReadInvPermZdd': on(
+                lambda mgr, l: c if l == c else (
+                    z.inv[l] if 0 <= l < z.n else -1)),
+            'Cudd_ReadPermZdd': on(
+                lambda mgr, i: c if i == c else (
+                    z.perm[i] if 0 <= i < z.n else -1)),
+            'Cudd_NodeReadIndex': on(
+                lambda u: c if u in (0, 1) else z.nodes[u][0]),
+            'cuddE': on(lambda u: z.nodes[u][2]),
+            'cuddT': on(lambda u: z.nodes[u][1]),
+            'cuddRef': on(lambda u: None),
+            'cuddDeref': on(lambda u: None),
+            'Cudd_RecursiveDerefZdd': on(lambda mgr, u: None),
+            'cuddCacheInsert2': on(lambda *a: None),
+            'cuddCacheLookup2Zdd': on(lambda *a: None),
+            'cuddUniqueInterZdd': on(
+                lambda mgr, i, t, e: z.mk_raw(i, t, e)),
+            '__cast__': on(lambda t, v: v),
+            'cuddIsConstant': on(lambda u: u in (0, 1)),
+            'Cudd_IsConstant': on(lambda u: u in (0, 1)),
+            'Cudd_ReadZddOne': on(lambda mgr, i: z.universe(i)),
+        }
+
+
+def zdd_model(P, R):
+    """The hand-written recursions of dd/cudd_zdd.pyx (`_forall`,
+    `_exist`, `_conjoin`, `_disjoin` with `_find_or_add`), read from the
+    lowered Cython tree and interpreted against a specification of the
+    CUDD primitives they call (`_ZddModel`), for every function of a
+    family over three variables, two index-to-level permutations and
+    every non-empty set of quantified variables.  C19: the result is the
+    ZDD of the universal / existential quantification, the conjunction,
+    the disjunction - the meaning `ZDD.apply` gives to its operator
+    symbols through these functions."""
+    import itertools
+    q = 'dd.cudd_zdd.'
+    fs = {k: P.func(q + k, required=False)
+          for k in ('_forall', '_exist', '_conjoin', '_disjoin')}
+    if any(f is None for f in fs.values()):
+        if not getattr(P, 'has_cython', False):
+            return None
+        raise AnalysisError('dd.cudd_zdd: the hand-written recursions '
+                            'vanished: ' + ', '.join(
+                                k for k, f in fs.items() if f is None))
+    resolver = interp.ModuleEnv(P, 'dd.cudd_zdd')
+    resolver.cache['CUDD_CONST_INDEX'] = _ZddModel.CONST
+    resolver.cache['NULL'] = None
+    rows = list(itertools.product((False, True), repeat=3))
+    tts = [tuple(bool(f(*r)) for r in rows) for f in (
+        lambda a, b, c: a and b and not c, lambda a, b, c: a or c,
+        lambda a, b, c: a != b, lambda a, b, c: True,
+        lambda a, b, c: False, lambda a, b, c: (b if a else c),
+        lambda a, b, c: not a and not b and not c, lambda a, b, c: c)]
+    mgr = interp.Sym('mgr', {'reordered': 0})
+    problems = dict()
+    n = 0
+
+    def run(f, z, args):
+        ps = list(f.params)
+        out, _ = interp.run_function(
+            f.node, dict(zip(ps, [mgr] + args)), z.stubs(), resolver)
+        return out
+
+    def judge(f, z, what, out, want):
+        if out[0] != 'return' or not isinstance(out[1], int):
+            problems.setdefault((f, 'raises'), (
+                f'{what}: {out[0]} {out[1]!r}'))
+            return
+        got = tuple(z.member(out[1], dict(enumerate(r))) for r in rows)
+        if got != want:
+            problems.setdefault((f, 'wrong-function'), (
+                f'{what}: the result has the values ' + ''.join(
+                    '1' if b else '0' for b in got) + ', expected '
+                + ''.join('1' if b else '0' for b in want)
+                + ' (rows over the indices 0, 1, 2; nodes '
+                f'{z.nodes})'))
+    try:
+        for perm in ([0, 1, 2], [2, 0, 1]):
+            for ti, tt in enumerate(tts):
+                for k in (1, 2, 3):
+                    for qs in itertools.combinations(range(3), k):
+                        for name, allq in (('_forall', True),
+                                           ('_exist', False)):
+                            n += 1
+                            z = _ZddModel(perm)
+                            u = z.build(tt, rows)
+                            out = run(fs[name], z, [0, u, z.cube(qs)])
+                            want = []
+                            for r in rows:
+                                vals = []
+                                for bits in itertools.product(
+                                        (False, True), repeat=k):
+                                    a = list(r)
+                                    for i, b in zip(qs, bits):
+                                        a[i] = b
+                                    vals.append(tt[rows.index(tuple(a))])
+                                want.append(all(vals) if allq
+                                            else any(vals))
+                            judge(fs[name], z,
+                                  f'levels of the indices {perm}, '
+                                  f'function {ti}, {name} over the '
+                                  f'indices {qs}', out, tuple(want))
+                for tj, t2 in enumerate(tts):
+                    for name, fn in (('_conjoin', lambda x, y: x and y),
+                                     ('_disjoin', lambda x, y: x or y)):
+                        n += 1
+                        z = _ZddModel(perm)
+                        u, v = z.build(tt, rows), z.build(t2, rows)
+                        out = run(fs[name], z, [0, u, v])
+                        judge(fs[name], z,
+                              f'levels of the indices {perm}, {name} of '
+                              f'the functions {ti} and {tj}', out,
+                              tuple(bool(fn(x, y))
+                                    for x, y in zip(tt, t2)))
+    except (interp.Unknown, KeyError) as e:
+        R.undecided('R-OPTAB', 'dd.cudd_zdd (hand-written recursions)',
+                    'ZDD model', str(e))
+        return None
+    rule = {'_forall': 'R-ARGS', '_exist': 'R-ARGS',
+            '_conjoin': 'R-OPTAB', '_disjoin': 'R-OPTAB'}
+    for (f, sub), msg in sorted(problems.items(),
+                                key=lambda kv: (kv[0][0].qualname, kv[0][1])):
+        R.violation(rule[f.name], f'zdd-{sub}', f.qualname, f.name, msg,
+                    unit=f.unit.rel, line=f.lineno)
+    if not problems:
+        R.holds('R-OPTAB', 'dd.cudd_zdd (hand-written recursions)',
+                f'ZDD model ({n} calls against a specification of the '
+                'CUDD primitives): quantification, conjunction and '
+                'disjunction have their meaning on every function of the '
+                'family')
+    return n
+
+
+def r_zdd(P, R):
+    n = zdd_model(P, R)
+    if n is not None:
+        R.floor('R-OPTAB calls of the ZDD model', n, 200)
+r_zdd.NAME = 'R-OPTAB(ZDD model)'
+
+
 def dot_model(P, R):
     """`dd.bdd._to_dot(roots, bdd)` interpreted (with `dd._utils.DotGraph`)
     on small managers: the graph it builds must show, for every node
